@@ -660,7 +660,10 @@ Grammar makeGrammar(const std::string & prop)
 			{ C_PROCESSONE, "processOne", 6, ArgSpec(0, 0), ArgSpec(0, 0), ArgSpec(0, 0), -1, 0 },
 			{ C_TAKE, "takeEvent", 2, ArgSpec(0, 0), ArgSpec(0, 0), ArgSpec(0, 0), -1, 0 },
 			{ C_CLEAR, "clearEvents", 1, ArgSpec(0, 0), ArgSpec(0, 0), ArgSpec(0, 0), -1, 0 },
-			{ C_PROCESSIF, "processIf", 1, ArgSpec(0, 3), ArgSpec(0, 1), ArgSpec(0, 0), -1, 0 },
+			// processIf / processUntil are deliberately absent: C11 quantifies over threads running
+			// process/processOne/takeEvent/clearEvents. (A declining processIf puts events back after an observer may
+			// have seen the list empty, and the observer then reads the counter after the call ended: emptyQueue() can
+			// return true with the declined event pending. Observed, outside the property's domain - see DESIGN.md.)
 		};
 	}
 	else {
